@@ -4,7 +4,8 @@
    user code. Proofs: Proofs/SchedP.v. *)
 From Coq Require Import List Arith Bool.
 Import ListNotations.
-From LCC Require Import Base.Util Model.Proj Model.Sched Model.Graph Model.Fixture Model.Deps Proofs.SchedP Proofs.GraphP Proofs.DepsP Proofs.ProjectP.
+From LCC Require Import Base.Util Model.Proj Model.Sched Model.Graph Model.Fixture Model.Deps Proofs.SchedP Proofs.GraphP Proofs.DepsP Proofs.ProjectP
+     Model.TaskSem Model.TaskSemEq Proofs.ProtocolP Proofs.AccountP.
 
 (* no deadlock: in every reachable state in which no worker thread has been killed, as long as the main loop is not over
    some task-level move is enabled *)
@@ -103,6 +104,23 @@ Proof.
   exists g. split; [exact Hg|]. intros n sof s Hn R. apply (progress g rk n sof s W Hn). apply (reachable_Inv g n sof s Hn R).
 Qed.
 Print Assumptions C01_no_deadlock_for_validated_projects.
+
+(* What one test task reports (layer 3, Model/TaskSem.v, tied per task to the real runner's trace): whatever its scripts do —
+   logs, steps, threads, raises of every kind in body, hooks and fixtures — among the result-level events it puts on the
+   queue ([rl] = everything but step / log events) there is exactly one of: test_disabled; test_skipped (with the reason
+   shown); or test_start followed by test_end — all from its worker thread, and no thread it starts fires any result-level
+   event ([kids_quiet]).  (Unless a BaseException escaped: then test_start only, and the task ends with an exception result
+   that makes the whole run raise.)  With "every task taken exactly once" above, every scheduled test is reported exactly
+   once; the writer turns each of these events into exactly one test result (Model/Writer.v add_test; C18, C06 WriterLevel). *)
+Theorem C01_test_task_accounts_for_its_test : forall pr reg force t md setup_md o,
+  task_sem pr reg force t md setup_md = Some o -> t_kind t = KTest ->
+  kids_quiet (to_children o) /\
+  (to_res o <> TkDied ->
+     rl (to_main o) = [RTestDisabled (t_path t)] \/
+     (exists r, md = Skip r /\ rl (to_main o) = [RTestSkipped (t_path t) (shown_reason r)]) \/
+     (md = Run /\ rl (to_main o) = [RTestStart (t_path t); RTestEnd (t_path t)])).
+Proof. exact test_task_accounts. Qed.
+Print Assumptions C01_test_task_accounts_for_its_test.
 
 (* F15 (why run_task must catch BaseException; fixed in /repo): if a worker thread were killed by a BaseException raised
    by user code before the completion put (move MDie), the run would never end:
